@@ -17,6 +17,7 @@
 EXTENDS VFS, Json, SequencesExt
 
 CONSTANTS Trees, Ops, MaxIno, KMaxLinks, EmitCases,
+          RefuseOPathCreate,  \* TRUE: create_file rejects O_PATH (the code since the fix); FALSE: the pinned snapshot
           RefuseDotNames   \* TRUE: a final name "." / ".." is refused before any syscall (not what the code does)
 
 VARIABLES tree, op, path, path2, done, res, fs, fs0
@@ -105,6 +106,7 @@ DoCreateFile(f, o, raw) ==
     IF ~pr.ok THEN Out(pr, f)
     ELSE IF nm = NONE THEN Out(EINVALARG, f)
     ELSE IF RefuseDotNames /\ nm \in {".", ".."} THEN Out(EINVALARG, f)
+    ELSE IF o.opath /\ RefuseOPathCreate THEN Out(EINVALARG, f)     \* root.rs create_file: O_PATH would make O_CREAT a no-op
     ELSE OpenCreat(f, pr.ino, nm, o)
 
 DoRemove(f, o, raw) ==
@@ -123,11 +125,80 @@ DoRename(f, o, raw, raw2) ==
     ELSE IF dn = NONE THEN Out(EINVALARG, f)
     ELSE LET r == Renameat(f, sp.ino, sn, dp.ino, dn, o.flag) IN Out(r.res, r.fs)
 
+
+(***************************************************************************)
+(* remove_all (root.rs:1167-1179 over utils/dir.rs:72-165), sequentially:  *)
+(* the named entry and everything below it disappears; a missing entry is  *)
+(* success; "." / ".." are refused.                                        *)
+(***************************************************************************)
+SubtreeOf(f, d, nm) ==
+    LET top == Child(f, d, nm)
+        below == IF IsDir(f, top) THEN ReachFrom(f, {top}) ELSE {}
+    IN  {<<d, nm, top>>} \cup {x \in f.dents : x[1] \in below}
+DoRemoveAll(f, raw) ==
+    LET pr == ResolveParent(f, raw)  nm == Split(raw).name IN
+    IF ~pr.ok THEN Out(pr, f)
+    ELSE IF nm = NONE THEN Out(EINVALARG, f)
+    ELSE IF nm \in {".", ".."} THEN Out(EINVALARG, f)
+    ELSE IF ~IsDir(f, pr.ino) THEN Out(Err("ENOTDIR"), f)
+    ELSE IF ~HasChild(f, pr.ino, nm) THEN Out(Ok(0), f)
+    ELSE Out(Ok(0), [f EXCEPT !.dents = @ \ SubtreeOf(f, pr.ino, nm)])
+
+(***************************************************************************)
+(* mkdir_all (root.rs:940-1068), sequentially, with the partial lookup of  *)
+(* the openat2 backend (openat2.rs:126-163 over Ancestors, path.rs).       *)
+(***************************************************************************)
+\* Ancestors::next as a sequence of [anc, rem]; rem = <<>> encodes None
+RECURSIVE AncFrom(_, _)
+AncFrom(raw, i) ==    \* i = index of the component after the slash we split at
+    IF i < 2 THEN << [anc |-> <<".">>, rem |-> IF raw = <<"">> THEN <<>> ELSE raw] >>
+    ELSE LET a0  == SubSeq(raw, 1, i - 1)
+             anc == IF a0 = <<"">> THEN <<"", "">> ELSE a0
+             r0  == SubSeq(raw, i, Len(raw))
+             rem == IF r0 = <<"">> THEN <<>> ELSE r0
+             ends == anc = <<"", "">> \/ anc = <<".">> \/ anc = <<"">>
+         IN  << [anc |-> anc, rem |-> rem] >> \o (IF ends THEN <<>> ELSE AncFrom(raw, i - 1))
+Ancestors(raw) == AncFrom(raw, Len(raw))
+
+RECURSIVE TryAnc(_, _, _, _)
+TryAnc(f, ancs, k, lasterr) ==
+    IF k > Len(ancs) THEN [ok |-> FALSE, err |-> lasterr]
+    ELSE LET r == KResolve(f, R, ancs[k].anc, FollowFlags, KMaxLinks) IN
+         IF r.ok THEN [ok |-> TRUE, ino |-> r.ino, rem |-> ancs[k].rem, lasterr |-> lasterr]
+         ELSE TryAnc(f, ancs, k + 1, r.err)
+PartialK(f, raw) ==
+    LET full == KResolve(f, R, raw, FollowFlags, KMaxLinks) IN
+    IF full.ok THEN [ok |-> TRUE, ino |-> full.ino, rem |-> <<>>, lasterr |-> ""]
+    ELSE TryAnc(f, Ancestors(raw), 1, full.err)
+
+RECURSIVE MkChain(_, _, _, _)
+MkChain(f, cur, parts, k) ==
+    IF parts = <<>> THEN Out(Ok(cur), f)
+    ELSE LET nm == Head(parts)
+             m  == Mkdirat(f, cur, nm, NEWINO - k) IN
+         IF ~m.res.ok /\ m.res.err # "EEXIST" THEN Out(m.res, f)
+         ELSE LET f2 == m.fs
+                  o  == OpenatNoFollow(f2, cur, nm) IN
+              IF ~o.ok THEN Out(o, f2)
+              ELSE IF IsLnk(f2, o.ino) THEN Out(Err("ENOTDIR"), f2)    \* O_DIRECTORY|O_NOFOLLOW on a link
+              ELSE IF ~IsDir(f2, o.ino) THEN Out(Err("ENOTDIR"), f2)
+              ELSE MkChain(f2, o.ino, Tail(parts), k + 1)
+DoMkdirAll(f, raw) ==
+    LET p == PartialK(f, raw) IN
+    IF ~p.ok THEN Out(Err(p.err), f)
+    ELSE IF p.lasterr \notin {"", "ENOENT"} THEN Out(Err(p.lasterr), f)
+    ELSE IF ~IsDir(f, p.ino) THEN Out(Err("ENOTDIR"), f)
+    ELSE LET parts == SelectSeq(p.rem, LAMBDA c : c \notin {"", "."}) IN
+         IF \E i \in DOMAIN parts : parts[i] = ".." THEN Out(Err("ENOENT"), f)
+         ELSE MkChain(f, p.ino, parts, 0)
+
 Do(f, o, raw, raw2) ==
     CASE o.op = "create"      -> DoCreate(f, o, raw, raw2)
       [] o.op = "create_file" -> DoCreateFile(f, o, raw)
       [] o.op \in {"remove_file", "remove_dir"} -> DoRemove(f, o, raw)
       [] o.op = "rename"      -> DoRename(f, o, raw, raw2)
+      [] o.op = "remove_all"  -> DoRemoveAll(f, raw)
+      [] o.op = "mkdir_all"   -> DoMkdirAll(f, raw)
 
 NeedsPath2(o) == o.op = "rename" \/ (o.op = "create" /\ o.kind \in {"lnk", "hard"})
 
@@ -153,7 +224,12 @@ Spec == Init /\ [][Eval]_vars
 OutsideDents(f) == {d \in f.dents : d[1] \notin ReachFrom(f, {R})}
 OutsideFrame == done => OutsideDents(fs) = OutsideDents(fs0)
 \* a descriptor handed back by create_file is an object inside the root
-ResultInside == (done /\ op.op = "create_file" /\ res.ok) => res.ino \in ReachFrom(fs, {R})
+ResultInside == (done /\ op.op \in {"create_file", "mkdir_all"} /\ res.ok) => res.ino \in ReachFrom(fs, {R})
+\* C12 (sequential): success returns the in-root resolution of the path, which is a directory
+MkdirAllPost == (done /\ op.op = "mkdir_all" /\ res.ok) =>
+                   LET k == KResolve(fs, R, path, FollowFlags, KMaxLinks) IN k.ok /\ k.ino = res.ino /\ IsDir(fs, k.ino)
+\* C13 (sequential): only the named subtree disappears, nothing is added
+RemoveAllPost == (done /\ op.op = "remove_all") => (fs.dents \subseteq fs0.dents)
 \* the symlink target string is stored verbatim (never resolved), so nothing is implied for it
 TypeOK == done \in BOOLEAN
 
@@ -164,6 +240,9 @@ CaseOut ==
                                   split |-> Split(path), split2 |-> Split(path2),
                                   expect |-> res, dents |-> fs.dents,
                                   frame |-> (OutsideDents(fs) = OutsideDents(fs0)),
-                                  inside |-> (~(op.op = "create_file" /\ res.ok) \/ res.ino \in ReachFrom(fs, {R})),
+                                  post |-> (IF op.op = "mkdir_all" /\ res.ok
+                                            THEN LET k == KResolve(fs, R, path, FollowFlags, KMaxLinks) IN k.ok /\ k.ino = res.ino
+                                            ELSE TRUE),
+                                  inside |-> (~(op.op \in {"create_file", "mkdir_all"} /\ res.ok) \/ res.ino \in ReachFrom(fs, {R})),
                                   kinds |-> [i \in {d[3] : d \in fs.dents} |-> fs.kind[i]]])>>)
 =============================================================================
